@@ -22,6 +22,7 @@ import FlowCal.transform  # noqa
 
 R = [1024, 256, 1000]
 EVENTS = [[0, 0, 0], [1, 1, 1], [1022, 254, 998], [1023, 255, 999], [500, 77, 123], [37, 200, 640]]
+NCH = 3          # channels of every container (Gen_C03.C)
 RTOL = 2e-14
 
 
@@ -76,7 +77,7 @@ def fingerprint(x):
 def render_ch(f):
     if f['t'] == 'none':
         return None
-    el = [('c%d' % c) if n else c - 1 for c, n in zip(f['cols'], f['named'])]
+    el = [('c%d' % c) if n == 1 else (c - 1 - NCH if n == 2 else c - 1) for c, n in zip(f['cols'], f['named'])]
     if f['t'] == 'scalar':
         return el[0]
     return tuple(el) if f['tup'] else el
